@@ -12,6 +12,7 @@ Node forms (tuples):
   ('agg', kind, name, (ops..))   ('discr', base)           ('unwrap', x)
   ('fn', name)                   ('unknown', text)
 """
+import re
 from .facts import Place, Operand, norm_path
 from . import cfg
 
@@ -239,9 +240,67 @@ def last_seg(name):
     return name.rsplit('::', 1)[-1]
 
 
+_INT_BITS = {'u8': 8, 'u16': 16, 'u32': 32, 'u64': 64, 'u128': 128, 'usize': 64, 'i8': 8, 'i16': 16, 'i32': 32, 'i64': 64, 'i128': 128, 'isize': 64}
+_NAMED_INT_CONST = re.compile(r'(?:core|std)::num::<impl (u8|u16|u32|u64|u128|usize|i8|i16|i32|i64|i128|isize)>::(MAX|MIN|BITS)$')
+_INT_FROM = re.compile(r'<(u8|u16|u32|u64|u128|usize|i16|i32|i64|i128|isize) as std::convert::(From|Into)<(u8|u16|u32|u64|u128|usize|i8|i16|i32|i64|i128|isize)>>::(from|into)$|(?:core|std)::num::(?:<impl [^>]+>::)?from$|convert::num::(?:<impl [^>]+>::)?(from|into)$|^num::from$')
+
+
+def _int_const(t):
+    """integer value of a constant node, including the named limits of the primitive integer types (`u8::MAX`)"""
+    if not (isinstance(t, tuple) and t and t[0] == 'const'):
+        return None
+    if len(t) > 2 and isinstance(t[2], int) and not isinstance(t[2], bool) and not ('true' in str(t[1]) or 'false' in str(t[1])):
+        return t[2]
+    m = _NAMED_INT_CONST.search(str(t[1]))
+    if m:
+        ty, what = m.group(1), m.group(2)
+        bits = _INT_BITS[ty]
+        signed = ty.startswith('i')
+        if what == 'BITS':
+            return bits
+        if what == 'MAX':
+            return (1 << (bits - 1)) - 1 if signed else (1 << bits) - 1
+        return -(1 << (bits - 1)) if signed else 0
+    return None
+
+
+def _fold(t):
+    """constant folding of integer arithmetic and lossless integer conversions over constants (`usize::from(u8::MAX) + 1` is 256)"""
+    if not isinstance(t, tuple) or not t:
+        return t
+    if t[0] == 'const':
+        v = _int_const(t)
+        if v is not None and not (len(t) > 2 and t[2] == v):
+            return ('const', str(v), v)
+        return t
+    if t[0] == 'bin' and t[1] in ('Add', 'Sub', 'Mul') and len(t) == 4:
+        fa, fb = _fold(t[2]), _fold(t[3])
+        a, b = _int_const(fa), _int_const(fb)
+        if a is not None and b is not None:
+            v = a + b if t[1] == 'Add' else (a - b if t[1] == 'Sub' else a * b)
+            if v >= 0:
+                return ('const', str(v), v)
+        if fa is not t[2] or fb is not t[3]:
+            return ('bin', t[1], fa, fb)
+        return t
+    if t[0] == 'call' and len(t[2]) == 1 and (_INT_FROM.search(t[1]) or (last_seg(t[1]) in ('from', 'into') and re.search(r'\b(u8|u16|u32|u64|usize)\b', t[1]) and 'convert' in t[1])):
+        v = _int_const(_fold(t[2][0]))
+        if v is not None:
+            return ('const', str(v), v)
+    if t[0] == 'cast' and len(t) > 2:
+        v = _int_const(_fold(t[1]))
+        if v is not None and isinstance(t[2], str) and t[2] in _INT_BITS and 0 <= v < (1 << _INT_BITS[t[2]]):
+            return ('const', str(v), v)
+    return t
+
+
 def simplify(t):
     """structural normalisation: Index::index calls -> ('index'), checked-op tuple field 0 -> the op,
     Try::branch payload / Some / Ok downcasts and unwrap calls -> ('unwrap', x)"""
+    return _fold(_simplify(t))
+
+
+def _simplify(t):
     if not isinstance(t, tuple) or not t:
         return t
     k = t[0]
@@ -250,6 +309,8 @@ def simplify(t):
         f = t[2]
         if base[0] == 'bin' and f in (0, '0'):
             return base
+        if base[0] == 'const' and f in (0, '0') and isinstance(t[1], tuple) and t[1] and t[1][0] == 'bin':
+            return base      # the value component of a checked operation that folded to a constant
         if base[0] == 'variant':
             vb, vn = base[1], base[2]
             if vn in ('Some', 'Ok', 'Continue') and f in (0, '0'):
